@@ -176,7 +176,7 @@ impl Target for BackupDamage {
         let peak = alloc::disarm();
         let _ = std::fs::remove_dir_all(&d);
         let kinds: Vec<&str> = applied.iter().filter(|a| a.effective).map(|a| a.kind).collect();
-        let (labels, failure) = manipart::judge(&p.edits, &p.items, &got, &kinds, &what, is_live);
+        let (labels, failure) = manipart::judge(&p.edits, &p.items, &damaged, &got, &kinds, &what, is_live);
         for l in labels {
             o.label(l);
         }
